@@ -1150,7 +1150,7 @@ def size_guard(f, unit_name, facts, module=()):
 def progress(c, facts, b, g, mfacts):
     n = 0
     for fn in facts.nontest_fns():
-        if fn.module[:1] != ("find_parser",):
+        if fn.module[:1] != ("find_parser",) or fn.key in b.template_fns():
             continue
         try:
             fb = b.fn_ir(fn.key)
